@@ -220,6 +220,10 @@ func corpus() [][]txPlan {
 		one(call(0, 15, designate(8, 1), try(L(designate(8, 2)), none, nil))),
 		one(bothWays(1, func() []*Node { return L(setWl(1, 300), setWl(2, 10), setWl(1, 301)) })...),
 		one(call(0, 15, setWl(0, 5), setWl(3, 7), try(L(call(1, 15, delWl(0), setWl(2, 9), throw())), none, nil), delWl(3))),
+		// a whitelisted fee that exists already is set AGAIN in a rolled-back callee / in a transaction that FAULTs
+		// (the cached record is updated in place: it must be the layer's own copy)
+		one(call(0, 15, setWl(2, 10), try(L(call(1, 15, setWl(2, 99), setWl(2, 98), throw())), L(notify(1)), nil), call(2, 15, put(0, 1)))),
+		{planOf(L(call(0, 15, setWl(2, 10), setWl(3, 20)))), planOf(L(call(0, 15, setWl(2, 77), setWl(3, 78), abort()))), planOf(L(call(2, 15, put(0, 1)), call(3, 15, put(0, 1))))},
 		one(bothWays(2, func() []*Node { return L(update(), put(1, 1)) })...),
 		one(call(0, 15, setWl(3, 50), try(L(call(3, 15, put(0, 1), destroy(), throw())), L(notify(1)), nil), call(3, 15, put(0, 2), update()))),
 		one(call(0, 15, setWl(3, 50), call(3, 15, put(0, 1), destroy()), try(L(call(3, 15, put(0, 2))), none, nil))),
